@@ -47,7 +47,9 @@ func dirSpellingAlphabet(c Cfg) []Op {
 		{K: "del", Key: "a"},
 		{K: "merge", Arg: 1},
 		{K: "restart"},
-		{K: "restartslash"},
+		{K: "restartslash"},                    // toggles between the clean spelling and a trailing separator
+		{K: "restartslash", Arg: 2, Dev: true}, // "db/."
+		{K: "restartslash", Arg: 3, Dev: true}, // "./db" spelled in the middle of the path
 	}
 }
 
@@ -583,7 +585,7 @@ func init() {
 				{Name: "same-offset-d6", Cfgs: []Cfg{blockCfg()}, Keys: keysAB, Alpha: sameOffsetAlphabet, Depth: 6, Dev: 6, Run: runC06},
 				{Name: fmt.Sprintf("seq-d%db%d", d, b), Cfgs: cfgs, Keys: keysAB, Alpha: c06Alphabet, Depth: d, Dev: b, Run: runC06},
 				{Name: "many-files-d4", Cfgs: []Cfg{manyFilesCfg()}, Keys: keysAB, Alpha: manyFilesAlphabet, Depth: 4, Dev: 4, Run: runC06},
-				{Name: "dir-spelling-d5", Cfgs: []Cfg{defaultCfg}, Keys: keysAB, Alpha: dirSpellingAlphabet, Depth: 5, Dev: 5, Run: runC06},
+				{Name: "dir-spelling-d5", Cfgs: []Cfg{defaultCfg}, Keys: keysAB, Alpha: dirSpellingAlphabet, Depth: 5, Dev: 2, Run: runC06},
 				{Name: fmt.Sprintf("fault-d%d", fd), Cfgs: []Cfg{defaultCfg, mm}, Keys: keysAB, Alpha: faultAlpha, Depth: fd, Dev: 2, Run: runC06Fault},
 			})
 			// writers racing the merge scan: all schedules of Merge || 1-2 writer calls (same scenarios as C08's
